@@ -478,6 +478,69 @@ pub fn run(ctx: &Ctx) {
             std::process::exit(75);
         }
     }
+    // ---- many acquisitions in one process: 70 000 uncontended guards one after the other (a lock that keeps a
+    // 16-bit ticket, generation or recursion count somewhere wraps in here), then another thread must still get in
+    {
+        let idx = configs.len() as u64 + 4;
+        if ctx.mine(idx) && !tsan {
+            let class = "many-acquisitions/70000-then-a-fresh-thread".to_string();
+            out::intent(idx, &class, &J::new().s("crash_sig", "many-acquisitions"));
+            let (tx, rx) = std::sync::mpsc::channel::<u64>();
+            let h = std::thread::spawn(move || {
+                for k in 0..70_000u64 {
+                    if k % 2 == 0 {
+                        drop(InjectorPP::prevent());
+                    } else {
+                        drop(InjectorPP::new());
+                    }
+                    if k % 1000 == 999 {
+                        let _ = tx.send(k + 1);
+                    }
+                }
+            });
+            let mut done = 0u64;
+            let mut stuck = false;
+            loop {
+                match rx.recv_timeout(Duration::from_secs(30)) {
+                    Ok(k) => done = k,
+                    Err(std::sync::mpsc::RecvTimeoutError::Timeout) => {
+                        stuck = true;
+                        break;
+                    }
+                    Err(_) => break,
+                }
+            }
+            let mut sig = "";
+            let mut d = J::new().n("acquisitions_completed", done);
+            if stuck || done < 70_000 {
+                sig = "waiter-not-served-within-30s-with-no-guard-alive";
+                d = d.s("what", "an uncontended acquisition did not come back");
+            } else {
+                let _ = h.join();
+                let (tx2, rx2) = std::sync::mpsc::channel::<i32>();
+                std::thread::spawn(move || {
+                    let mut i = InjectorPP::new();
+                    i.when_called(injectorpp::func!(fn (shared)(i32) -> i32)).will_execute_raw(injectorpp::func!(fn (t9)(i32) -> i32));
+                    let v = shared(0);
+                    drop(i);
+                    let _ = tx2.send(v);
+                });
+                match rx2.recv_timeout(Duration::from_secs(30)) {
+                    Ok(0x109) => {}
+                    Ok(v) => {
+                        sig = "fresh-thread-after-the-run-did-not-see-normal-behaviour";
+                        d = d.n("saw", v);
+                    }
+                    Err(_) => sig = "waiter-not-served-within-30s-with-no-guard-alive",
+                }
+            }
+            out::outcome(idx, &class, if sig.is_empty() { Verdict::Held } else { Verdict::Violated }, sig, &d);
+            if !sig.is_empty() {
+                out::summary(&J::new().n("many_acquisitions", done));
+                std::process::exit(75);
+            }
+        }
+    }
     // ---- a healthy holder that simply takes long (thorough tier only: 40 s): the waiter gets its turn when the
     // holder lets go, however long that takes - it is neither turned away nor does it give up
     {
